@@ -11,7 +11,9 @@ EXPLANATION = (
     "(a frame and its padding reach the transport contiguously); (R11.3) open_stream registers the stream in both tables "
     "before writing SYN, and create_proxy_stream opens the stream before writing the destination; (R11.4) a new session is "
     "published to the pool and returned only after start_client (Settings buffered first) completed; (R11.5) only the "
-    "constructors, close() and write_with_padding touch Session.writer. Not decided: fairness of the lock."
+    "constructors, close() and write_with_padding touch Session.writer; (R11.6) every call of write_with_padding is made with "
+    "Session.buffer held, so transport order is buffer-lock order on every path; (R11.7) no frame-write future is handed to a cancelling "
+    "combinator (time::timeout, select!), since a write dropped part-way leaves a frame fragment on the wire. Not decided: fairness of the lock."
 )
 RULE_TEXT = "one obligation per transport write, per lock acquisition, per ordering pair; non-trivial = needed a must-held guard dataflow, reachability or dominance query"
 
@@ -211,9 +213,86 @@ def r5_writer_users(ctx):
     ctx.floor("R11.5", "acquisitions of Session.writer", n, 5)
 
 
+WRITE_FNS = ("Session::write_frame", "Session::write_control_frame", "Session::write_data_frame", "Session::write_with_padding", "Session::open_stream")
+
+
+def r6_every_write_under_buffer_lock(ctx):
+    """all callers of write_with_padding hold Session.buffer (must) at the call: transport order = buffer-lock order"""
+    names = _cls_names(ctx)
+    callers = [e for e in ctx.cg.callers(S + "write_with_padding") if e.kind == "call"]
+    if not ctx.floor("R11.6", "callers of write_with_padding", len(callers), 1):
+        return
+    for i, e in enumerate(callers):
+        cb = ctx.P.bodies[e.src]
+        mh = Held(cb, must=True)
+        held = _held_fields(cb, mh, e.bb, names)
+        ok = BUFFER_CLS_FIELD in held
+        ctx.ob("R11.6", "%s|write_with_padding-call#%d" % (e.src.replace(S, "").split("::{closure")[0], i), ok, e.site,
+               "the call is made with Session.buffer held on every path" if ok else
+               "write_with_padding is reachable without holding Session.buffer (a path that bypasses the pending-buffer critical section): a task on that path can take the writer lock ahead of a task that is "
+               "still flushing the buffered Settings/SYN frames, so Settings is not first / a PSH overtakes its SYN")
+
+
+def _future_calls(t, depth=0):
+    """calls whose *future* the term denotes (does not descend into fields of a call's completed result)"""
+    if not isinstance(t, tuple) or not t or depth > 8:
+        return []
+    if t[0] == "field":
+        return []
+    if t[0] == "call":
+        out = [t]
+        for a in t[3]:
+            out += _future_calls(a, depth + 1)
+        return out
+    if t[0] == "agg":
+        out = []
+        for a in t[3]:
+            out += _future_calls(a, depth + 1)
+        return out
+    if t[0] == "phi":
+        out = []
+        for a in t[1]:
+            out += _future_calls(a, depth + 1)
+        return out
+    return []
+
+
+def r7_cancellation(ctx):
+    """a frame write must run to completion: its future is never handed to a cancelling combinator"""
+    n = 0
+    for key, body in ctx.P.bodies.items():
+        o = None
+        for c in body.calls():
+            nm = c.norm or ""
+            if nm.endswith(("time::timeout", "time::timeout_at")) and len(c.args) > 1:
+                o = o or ctx.origins(body)
+                n += 1
+                t = o.of_operand(c.args[1])
+                hit = [s for s in _future_calls(t) if is_call_term(s, *WRITE_FNS)]
+                ctx.ob("R11.7", "%s|timeout#%d" % (key.split("::{closure")[0], n), not hit, c.site,
+                       "the timed future is %s: not a frame write" % fmt(t)[:60] if not hit else
+                       "a frame write (%s) is wrapped in time::timeout: when the timer fires the write future is dropped part-way through write_all, leaving a frame fragment on the transport and releasing the locks; "
+                       "the next writer's frame is spliced into the abandoned one and the peer decodes garbage" % hit[0][1].split("::")[-1])
+            elif nm.endswith("future::poll_fn") and c.args:
+                o = o or ctx.origins(body)
+                n += 1
+                t = o.of_operand(c.args[0])
+                terms = [t]
+                for s in subterms(t):
+                    if isinstance(s, tuple) and s and s[0] == "var" and len(s) > 2:
+                        terms.append(o.init_of(s[2]))
+                hit = [s for tt in terms for s in _future_calls(tt) if is_call_term(s, *WRITE_FNS)]
+                ctx.ob("R11.7", "%s|select#%d" % (key.split("::{closure")[0], n), not hit, c.site,
+                       "no frame write among the select! branches" if not hit else
+                       "a frame write (%s) is a select! branch: it is dropped mid-write when another branch completes first" % hit[0][1].split("::")[-1])
+    ctx.floor("R11.7", "timeout / select! sites examined", n, 5)
+
+
 def run(ctx):
     r1_flush_atomicity(ctx)
     r2_contiguity(ctx)
     r3_open_order(ctx)
     r4_settings_first(ctx)
     r5_writer_users(ctx)
+    r6_every_write_under_buffer_lock(ctx)
+    r7_cancellation(ctx)
